@@ -181,6 +181,7 @@ func c07Passes(tier string) []c07Pass {
 }
 
 func c07Enumerate(tier string, emit func(*eng.Case)) {
+	emit = withDecor(decorEvery(tier), emit)
 	gen := func(f []*c07Node, before, after int) {
 		t := &ora.Tok{}
 		var sb, ds strings.Builder
@@ -387,7 +388,7 @@ func init() {
 			for _, ps := range c07Passes(tier) {
 				out = append(out, map[string]any{"leaves": ps.cfg.leaves, "containers": append(append([]string{"pre"}, ps.cfg.conts...), ps.cfg.lists...), "max_depth": ps.depth, "min_leaves": ps.minL, "max_leaves": ps.maxL, "placements": len(ps.placements)})
 			}
-			return map[string]any{"passes": out}
+			return map[string]any{"decorated_variants": decorBound(tier), "passes": out}
 		},
 	})
 }
